@@ -1181,3 +1181,173 @@ Proof.
       apply lookup_app_l. exact L.
     + intros k tv v fs T A _ _ C. discriminate C.
 Qed.
+
+(* ------------------------------------------------------------------ *)
+(* the fuel S (jdepth t) used by [vmatch] suffices: beyond the target's *)
+(* depth the result does not depend on the fuel                         *)
+(* ------------------------------------------------------------------ *)
+
+Lemma vmatch_scalar_fuel n m t a la s :
+  is_container t = false -> vmatch_f n t a la s = vmatch_f m t a la s.
+Proof. intros C. destruct t; try discriminate C; destruct a, n, m; reflexivity. Qed.
+
+Section Ext.
+  Variables rec1 rec2 : json -> json -> json -> bool -> outs.
+
+  Lemma list_loop_ext tl : forall al las,
+    (forall t, In t tl -> forall a la s, rec1 t a la s = rec2 t a la s) ->
+    list_loop rec1 tl al las = list_loop rec2 tl al las.
+  Proof.
+    induction tl as [|t0 tr IH]; intros al las E; cbn; auto.
+    destruct al as [|a0 ar]; auto.
+    rewrite (E t0) by (left; auto).
+    destruct (is_match _); auto. apply IH. intros; apply E; right; auto.
+  Qed.
+
+  Lemma list_match_ext tl al la :
+    (forall t, In t tl -> forall a la s, rec1 t a la s = rec2 t a la s) ->
+    list_match rec1 tl al la = list_match rec2 tl al la.
+  Proof.
+    intros E. unfold list_match.
+    destruct tl, al; auto; destruct (negb (Nat.eqb _ _)); auto;
+      destruct (negb (py_truthy la)); try (apply list_loop_ext; auto);
+      destruct la; auto; apply list_loop_ext; auto.
+  Qed.
+
+  Lemma key_match_ext_rec sk lk cfg ak la k tv :
+    (forall a la s, rec1 tv a la s = rec2 tv a la s) ->
+    (forall fields T, lookup k cfg = Some fields -> list_to_object tv fields = Ret T ->
+                      forall a la s, rec1 T a la s = rec2 T a la s) ->
+    key_match rec1 sk lk cfg ak la k tv = key_match rec2 sk lk cfg ak la k tv.
+  Proof.
+    intros E1 E2. unfold key_match.
+    destruct (String.eqb k K_OWNERS); auto.
+    destruct (probe_la la k) as [lav| |]; auto.
+    - destruct (if mem_str k lk then inl (read_la (LaVal lav))
+                else match lookup k ak with Some v => inl (Ret v) | None => inr O_false end)
+        as [[cv|e|]|o]; auto.
+      destruct (lookup k cfg) as [fields|] eqn:C.
+      + destruct (list_to_object tv fields) as [T|e|] eqn:LT; auto.
+        destruct (list_to_object cv fields) as [A|e|]; auto.
+        cbn [read_la]. destruct (list_to_object lav fields) as [L|e|]; auto.
+        eapply E2; eauto.
+      + cbn [read_la]. apply E1.
+  Qed.
+
+  Lemma keys_loop_ext sk lk cfg ak la l :
+    (forall k tv, In (k, tv) l -> forall a la s, rec1 tv a la s = rec2 tv a la s) ->
+    (forall k tv fields T, In (k, tv) l -> lookup k cfg = Some fields -> list_to_object tv fields = Ret T ->
+                      forall a la s, rec1 T a la s = rec2 T a la s) ->
+    keys_loop rec1 sk lk cfg ak la l = keys_loop rec2 sk lk cfg ak la l.
+  Proof.
+    induction l as [|[k tv] r IH]; intros E1 E2; cbn; auto.
+    rewrite IH.
+    2: { intros k0 tv0 I0. eapply E1. right. eauto. }
+    2: { intros k0 tv0 fields T I0. eapply E2. right. eauto. }
+    destruct (is_directive k); auto. f_equal.
+    apply key_match_ext_rec.
+    - eapply E1. left. eauto.
+    - intros fields T. eapply E2. left. eauto.
+  Qed.
+
+  Lemma dict_match_ext tk ak la :
+    (forall k tv, In (k, tv) tk -> forall a la s, rec1 tv a la s = rec2 tv a la s) ->
+    (forall k tv sk lk cfg fields T, dirs_of tk = Some (sk, lk, cfg) -> In (k, tv) tk ->
+        lookup k cfg = Some fields -> list_to_object tv fields = Ret T ->
+        forall a la s, rec1 T a la s = rec2 T a la s) ->
+    dict_match rec1 tk ak la = dict_match rec2 tk ak la.
+  Proof.
+    intros E1 E2. unfold dict_match.
+    destruct (key_set (lookup K_SET tk)) as [sk| |] eqn:D1; auto.
+    destruct (key_set (lookup K_LA tk)) as [lk| |] eqn:D2; auto.
+    destruct (map_cfg (lookup K_MAP tk)) as [cfg| |] eqn:D3; auto.
+    apply keys_loop_ext; auto.
+    intros k tv fields T I C LT. eapply E2; eauto. unfold dirs_of. rewrite D1, D2, D3. reflexivity.
+  Qed.
+End Ext.
+
+(* keyed views of non-list values: every key is "" and every value a str *)
+Definition flat_view (kvs : list (string * json)) : Prop :=
+  forall k v, In (k, v) kvs -> k = ""%string /\ is_container v = false.
+
+Lemma l2o_items_strs objs fields : forall acc kvs,
+  (forall o, In o objs -> exists c, o = JStr c) -> flat_view acc ->
+  l2o_items objs fields acc = Ret kvs -> flat_view kvs.
+Proof.
+  induction objs as [|o r IH]; cbn; intros acc kvs S F H.
+  - inversion H. subst. auto.
+  - destruct (S o) as [c Ec]; auto. subst o.
+    destruct fields as [|f fr]; cbn in H; [|discriminate H].
+    eapply IH; [| |exact H]; auto.
+    intros k v I. apply v_In_set_key in I. destruct I as [[E1 E2]|I]; [subst; auto | auto].
+Qed.
+
+Lemma list_to_object_nonlist v fields T :
+  list_to_object v fields = Ret T -> (forall l, v <> JList l) ->
+  T = JNull \/ exists kvs, T = JMap kvs /\ flat_view kvs.
+Proof.
+  unfold list_to_object. destruct (negb (py_truthy v)); [intros H; inversion H; auto|].
+  destruct (py_iter v) as [objs| |] eqn:I; try discriminate.
+  destruct (l2o_items objs fields []) as [kvs| |] eqn:L; try discriminate.
+  intros H NL. inversion H. subst. right. exists kvs. split; auto.
+  eapply l2o_items_strs; [| |exact L].
+  - destruct v; cbn in I; try discriminate I; inversion I; subst.
+    + intros o Io. apply in_map_iff in Io. destruct Io as [c [E _]]. eauto.
+    + exfalso. eapply NL; eauto.
+    + intros o Io. apply in_map_iff in Io. destruct Io as [c [E _]]. eauto.
+  - intros ? ? [].
+Qed.
+
+Lemma flat_view_dirs kvs : flat_view kvs -> dirs_of kvs = Some ([], [], []).
+Proof.
+  intros F. apply dirs_of_plain. intros k v I. destruct (F k v I) as [E _]. subst. reflexivity.
+Qed.
+
+Lemma vmatch_flat_fuel kvs n m a la s :
+  flat_view kvs -> 1 <= n -> 1 <= m -> vmatch_f n (JMap kvs) a la s = vmatch_f m (JMap kvs) a la s.
+Proof.
+  intros F Hn Hm. destruct n as [|n]; [lia|]. destruct m as [|m]; [lia|].
+  destruct a; try reflexivity. rewrite !vmatch_map_unfold.
+  apply dict_match_ext.
+  - intros k tv I a0 la0 s0. apply vmatch_scalar_fuel. apply (F k tv I).
+  - intros k tv sk lk cfg fields T D I C. rewrite (flat_view_dirs _ F) in D. inversion D. subst. discriminate C.
+Qed.
+
+Lemma jdepth_l2o_list objs fields kvs :
+  l2o_items objs fields [] = Ret kvs -> jdepth (JMap kvs) <= jdepth (JList objs).
+Proof.
+  intros H. apply jdepth_map_le; [|rewrite jdepth_list; lia].
+  intros k v I. destruct (l2o_items_entries _ _ _ _ H k v I) as [[]|[Io _]]. apply jdepth_in_list; auto.
+Qed.
+
+Theorem vmatch_fuel_irrelevant : forall n m t a la s,
+  jdepth t < n -> jdepth t < m -> vmatch_f n t a la s = vmatch_f m t a la s.
+Proof.
+  induction n as [|n IH]; intros m t a la s Hn Hm; [lia|].
+  destruct m as [|m]; [lia|].
+  destruct t as [| b | z | mm e | str | tl | tk];
+    try (apply vmatch_scalar_fuel; reflexivity).
+  - (* list *)
+    destruct a; try reflexivity. destruct s; [rewrite !vmatch_set_unfold; reflexivity|].
+    rewrite !vmatch_list_unfold. apply list_match_ext.
+    intros t I a0 la0 s0. pose proof (jdepth_in_list _ _ I). apply IH; lia.
+  - (* map *)
+    destruct a; try reflexivity. rewrite !vmatch_map_unfold. apply dict_match_ext.
+    + intros k tv I a0 la0 s0. pose proof (jdepth_in_map _ _ _ I). apply IH; lia.
+    + intros k tv sk lk cfg fields T D I C LT a0 la0 s0.
+      pose proof (jdepth_in_map _ _ _ I) as Dv.
+      destruct tv as [| | | | |objs|kvs0].
+      6: { (* a list: the keyed view is no deeper than the list *)
+        unfold list_to_object in LT. destruct (negb (py_truthy (JList objs))).
+        - inversion LT. apply vmatch_scalar_fuel. reflexivity.
+        - cbn [py_iter] in LT. destruct (l2o_items objs fields []) as [tkvs| |] eqn:L; try discriminate LT.
+          inversion LT. subst T. pose proof (jdepth_l2o_list _ _ _ L). apply IH; lia. }
+      all: (destruct (list_to_object_nonlist _ _ _ LT) as [E|[fkvs [E F]]]; [discriminate | | ];
+            [ subst T; apply vmatch_scalar_fuel; reflexivity
+            | subst T; apply vmatch_flat_fuel; auto; rewrite jdepth_map in Hn, Hm; lia ]).
+Qed.
+
+(* in particular [vmatch]'s own fuel gives the limit value *)
+Corollary vmatch_is_limit t a la s n :
+  jdepth t < n -> vmatch_f n t a (la_arg la) s = vmatch t a la s.
+Proof. intros H. unfold vmatch. apply vmatch_fuel_irrelevant; lia. Qed.
